@@ -41,7 +41,10 @@ class Lines(object):
         return cur
 
 
-def gen_namespace(rng, nsname, thorough, deps, want_blocks=True, main=True, gobject=False):
+CRAYON_TYPES = ['crayon_t', 'crayon_surface_t', 'crayon_matrix_t']
+
+
+def gen_namespace(rng, nsname, thorough, deps, want_blocks=True, main=True, gobject=False, crayon=False):
     """deps: list of already generated dependency jobs whose types may be referenced."""
     P = nsname                                   # identifier prefix
     p = nsname.lower()                           # symbol prefix
@@ -74,6 +77,17 @@ def gen_namespace(rng, nsname, thorough, deps, want_blocks=True, main=True, gobj
     for d in deps:
         for r in d.get('_records', []):
             dep_types.append(r.split(':', 1)[1] if r.startswith('-shared:') else d['ns'] + r)
+
+    # types of the hand-written Crayon GIR (sim/fixtures), reachable directly or only through a
+    # dependency that includes it: their GIR names are not their prefix-stripped C names
+    foreign = []
+    for d in deps:
+        for t in d.get('_foreign_types', []):
+            if t not in foreign:
+                foreign.append(t)
+    if crayon:
+        foreign = list(CRAYON_TYPES)
+    dep_types.extend(foreign)
 
     copyfree = []
     nrec = rng.randint(1, 4 if thorough else 3)
@@ -134,8 +148,17 @@ def gen_namespace(rng, nsname, thorough, deps, want_blocks=True, main=True, gobj
             if mt[0] in ('basic', 'named') and mt[1] in ('guint', 'unsigned int') and rng.random() < 0.3:
                 m['bits'] = rng.randint(1, 7)
             members.append(m)
+        counted = False
+        if style != 'opaque' and rng.random() < 0.3:
+            # a counted array: the length lives in a sibling field, named by an annotation
+            members.append({'name': 'n_cells', 'type': ['named', 'guint'], 'private': False})
+            members.append({'name': 'cells', 'type': ['ptr', rng.choice([['basic', 'int'], ['named', 'gdouble']])], 'private': False})
+            if rng.random() < 0.5:
+                members.append({'name': 'owner_ref', 'type': GPOINTER, 'private': False})
+            counted = True
         if style == 'split' and rng.random() < 0.1:
             members = []                       # struct _T { }; -- an empty body
+            counted = False
         if style in ('split', 'union'):
             D({'k': 'typedef_struct_fwd', 'name': P + r, 'tag': tag, 'union': is_union}, f_typedefs)
             if rng.random() < 0.25:
@@ -158,8 +181,21 @@ def gen_namespace(rng, nsname, thorough, deps, want_blocks=True, main=True, gobj
             # explicit copy/free functions (they are declared among the functions further down)
             rec_ann = ' (copy-func %s_%s_dup) (free-func %s_%s_destroy)' % (p, snake(r), p, snake(r))
             copyfree.append(r)
-        if want_blocks and (rec_ann or rng.random() < 0.6):
+        field_blocks = []
+        if counted and want_blocks:
+            how = rng.choice(['struct', 'field', 'both', 'none'])
+            if how in ('field', 'both'):
+                field_blocks.append(['%s%s.cells: (array length=n_cells)%s' % (P, r, rng.choice(['', ' (nullable)'])), '',
+                                     'The cells, documented on their own.'])
+            if any(m['name'] == 'owner_ref' for m in members) and rng.random() < 0.6:
+                field_blocks.append(['%s%s.owner_ref: (type %s.%s)' % (P, r, nsname, rng.choice(records)), '', 'Who owns this.'])
+        else:
+            how = 'none'
+        if want_blocks and (rec_ann or how in ('struct', 'both') or rng.random() < 0.6):
             tl = ['%s%s:%s' % (P, r, rec_ann)]
+            if how in ('struct', 'both'):
+                tl.append('@cells: (array length=n_cells): the cells')
+                tl.append('@n_cells: how many cells')
             if style != 'opaque':
                 for m in members[:2]:
                     if not m['private'] and rng.random() < 0.6:
@@ -170,6 +206,8 @@ def gen_namespace(rng, nsname, thorough, deps, want_blocks=True, main=True, gobj
             if rng.random() < 0.2:
                 tl += ['', 'Deprecated: %s: Use something else' % rng.choice(since)]
             block(tl, f_typedefs)
+        for fb in field_blocks:
+            block(fb, f_typedefs)
 
     if rng.random() < 0.3:
         # typedef struct _PHandle *PHandle; with the body (or none) elsewhere
@@ -275,6 +313,16 @@ def gen_namespace(rng, nsname, thorough, deps, want_blocks=True, main=True, gobj
             block(['%s:' % fn['name'], '@shared: (transfer none): the shared thing', '', 'Uses it.', '',
                    'Returns: (transfer none): the same'], fn['file'])
 
+    if foreign:
+        for i in range(rng.randint(1, 2)):
+            t1, t2 = rng.choice(foreign), rng.choice(foreign)
+            fn = D({'k': 'function', 'name': '%s_%s%d' % (p, rng.choice(['paint', 'stroke']), i),
+                    'ret': rng.choice([['void'], ['ptr', ['named', t2]]]),
+                    'params': [['cr', ['ptr', ['named', t1]]], ['format', ['named', 'crayon_format_t']]]}, rng.choice(apis))
+            if want_blocks and rng.random() < 0.6:
+                block(['%s:' % fn['name'], '@cr: (transfer none): what to draw with', '@format: the format', '', 'Draws.'] +
+                      (['', 'Returns: (transfer none): something'] if fn['ret'][0] != 'void' else []), fn['file'])
+
     if nested:
         sn = snake(nested)
         RI = ['ptr', ['named', P + nested + 'Item']]
@@ -375,6 +423,20 @@ def gen_namespace(rng, nsname, thorough, deps, want_blocks=True, main=True, gobj
             if want_blocks:
                 block(['%s:' % fn['name'], '@self: the object', '@key: (type filename): a key', '', 'Data.', '',
                        'Returns: (type %s.%s) (transfer none) (nullable): the data' % (nsname, rng.choice(records))], fn['file'])
+        if rng.random() < 0.3:
+            # hash tables (two element types), pointer arrays, byte arrays and GArrays
+            kind = rng.choice(['hash', 'hash', 'ptrarray', 'bytes', 'garray', 'slist'])
+            ct = {'hash': 'GHashTable', 'ptrarray': 'GPtrArray', 'bytes': 'GByteArray', 'garray': 'GArray', 'slist': 'GSList'}[kind]
+            et = {'hash': rng.choice(['utf8 %s.%s' % (nsname, r), 'utf8 gint', 'gpointer gpointer', 'utf8 utf8']),
+                  'ptrarray': rng.choice(['%s.%s' % (nsname, r), 'utf8', 'filename']), 'bytes': None,
+                  'garray': rng.choice(['gint', 'gdouble', 'guint8']), 'slist': rng.choice(['utf8', '%s.%s' % (nsname, r)])}[kind]
+            fn = D({'k': 'function', 'name': '%s_%s_get_index' % (p, sr), 'ret': ['ptr', ['named', ct]],
+                    'params': [SELF, ['filter', ['ptr', ['named', ct]]]]}, rng.choice(apis))
+            if want_blocks and rng.random() < 0.85:
+                e1 = ('(element-type %s) ' % et) if et and rng.random() < 0.85 else ''
+                e2 = ('(element-type %s) ' % et) if et and rng.random() < 0.85 else ''
+                block(['%s:' % fn['name'], '@self: the object', '@filter: %s(nullable): a filter' % e1, '', 'The index.', '',
+                       'Returns: %s(transfer %s): the index' % (e2, rng.choice(['none', 'container', 'full']))], fn['file'])
     for r in copyfree:
         sr = snake(r)
         RP = ['ptr', ['named', P + r]]
@@ -430,6 +492,10 @@ def gen_namespace(rng, nsname, thorough, deps, want_blocks=True, main=True, gobj
 
     # ---- GObject types described by the runtime dump (classes, interfaces, boxed, enums, error domains)
     dump, quarks = {}, {}
+    registered_errors = []
+
+    def x_is_error(d):
+        return d['name'] in registered_errors
     if gobject:
         order_before.append([f_typedefs, f_structs])       # class structs name the typedefs in their vfuncs
         GOBJ, GOBJCLASS, GTYPE = ['named', 'GObject'], ['named', 'GObjectClass'], ['named', 'GType']
@@ -444,19 +510,24 @@ def gen_namespace(rng, nsname, thorough, deps, want_blocks=True, main=True, gobj
         for ifc in ifaces:
             si = snake(ifc)
             D({'k': 'typedef_struct_fwd', 'name': P + ifc, 'tag': '_' + P + ifc}, f_typedefs)
-            D({'k': 'typedef_struct_fwd', 'name': P + ifc + 'Interface', 'tag': '_' + P + ifc + 'Interface'}, f_typedefs)
+            # the vtable structure is called <T>Interface or <T>Iface; when a library carries both
+            # (an old vtable kept next to the current one) <T>Iface is the one paired with the type
+            vt_names = rng.choice([['Interface'], ['Interface'], ['Iface'], ['Iface', 'Interface'], ['Interface', 'Iface']])
             vfs = rng.sample(['do_it', 'undo_it', 'query'], rng.randint(1, 3))
-            members = [{'name': 'g_iface', 'type': ['named', 'GTypeInterface']}]
-            for vf in vfs:
-                members.append({'name': vf, 'type': ['ptr', ['func', ['void'], [['self', ['ptr', ['named', P + ifc]]]]]]})
-                if rng.random() < 0.8:
-                    D({'k': 'function', 'name': '%s_%s_%s' % (p, si, vf), 'ret': ['void'],
-                       'params': [['self', ['ptr', ['named', P + ifc]]]]}, rng.choice(apis))
-            D({'k': 'struct_def', 'tag': '_' + P + ifc + 'Interface', 'members': members}, f_structs, len(members) + 1)
+            for vi, vt in enumerate(vt_names):
+                D({'k': 'typedef_struct_fwd', 'name': P + ifc + vt, 'tag': '_' + P + ifc + vt}, f_typedefs)
+                members = [{'name': 'g_iface', 'type': ['named', 'GTypeInterface']}]
+                for vf in (vfs if vi == 0 else rng.sample(['do_it', 'undo_it', 'query', 'legacy_hook'], 2)):
+                    members.append({'name': vf, 'type': ['ptr', ['func', ['void'], [['self', ['ptr', ['named', P + ifc]]]]]]})
+                    if vi == 0 and rng.random() < 0.8:
+                        D({'k': 'function', 'name': '%s_%s_%s' % (p, si, vf), 'ret': ['void'],
+                           'params': [['self', ['ptr', ['named', P + ifc]]]]}, rng.choice(apis))
+                D({'k': 'struct_def', 'tag': '_' + P + ifc + vt, 'members': members}, f_structs, len(members) + 1)
             fn = get_type_fn(si)
             props = ''.join('<property name="%s" type="gint" flags="%d"/>' % (n, fl)
                             for n, fl in rng.sample([('zeta', 3), ('alpha', 1), ('mid-prop', 7)], rng.randint(0, 3)))
-            sigs = ''.join('<signal name="%s" return="void" when="last"><param type="%s%s"/></signal>' % (n, P, ifc)
+            # (as in the real dump, <param> lists the signal's arguments without the emitting instance)
+            sigs = ''.join('<signal name="%s" return="void" when="last">%s</signal>' % (n, rng.choice(['', '<param type="gint"/>']))
                            for n in rng.sample(['went', 'arrived'], rng.randint(0, 2)))
             dump[fn] = '<interface name="%s%s" get-type="%s">%s%s<prerequisite name="GObject"/></interface>' % (P, ifc, fn, props, sigs)
             if want_blocks and rng.random() < 0.5:
@@ -472,13 +543,23 @@ def gen_namespace(rng, nsname, thorough, deps, want_blocks=True, main=True, gobj
                 {'name': 'parent_instance', 'type': parent_inst},
                 {'name': 'priv_%s' % sc, 'type': GPOINTER, 'private': rng.random() < 0.7}]}, f_structs, 3)
             vfs = rng.sample(['frob', 'changed', 'render', 'validate'], rng.randint(0, 3))
+            invokers = []
             members = [{'name': 'parent_class', 'type': parent_cls}]
             for vf in vfs:
                 members.append({'name': vf, 'type': ['ptr', ['func', rng.choice([['void'], ['named', 'gboolean']]),
                                                        [['self', ['ptr', ['named', P + cl]]], ['value', ['basic', 'int']]]]]})
-                if rng.random() < 0.7:      # the invoker method
+                r_inv = rng.random()
+                if r_inv < 0.6:      # the invoker method
                     D({'k': 'function', 'name': '%s_%s_%s' % (p, sc, vf), 'ret': ['void'],
                        'params': [['self', ['ptr', ['named', P + cl]]], ['value', ['basic', 'int']]]}, rng.choice(apis))
+                    invokers.append(vf)
+                elif r_inv < 0.8 and want_blocks:
+                    # an invoker under another name, tied to its slot by the (virtual) annotation
+                    inv = D({'k': 'function', 'name': '%s_%s_do_%s' % (p, sc, vf), 'ret': ['void'],
+                             'params': [['self', ['ptr', ['named', P + cl]]], ['value', ['basic', 'int']]]}, rng.choice(apis))
+                    block(['%s: (virtual %s)' % (inv['name'], vf), '@self: the object', '@value: (in): a value', '',
+                           'Invokes the %s slot.' % vf], inv['file'])
+                    invokers.append('do_' + vf)
             members.append({'name': 'padding', 'type': ['array', GPOINTER, 4]})
             D({'k': 'struct_def', 'tag': '_' + P + cl + 'Class', 'members': members}, f_structs, len(members) + 1)
             fn = get_type_fn(sc)
@@ -497,6 +578,7 @@ def gen_namespace(rng, nsname, thorough, deps, want_blocks=True, main=True, gobj
             for (n, t, fl, dv) in plist:
                 props += '<property name="%s" type="%s" flags="%d"%s/>' % (n, t, fl, (' default-value="%s"' % dv) if dv else '')
                 un = n.replace('-', '_')
+                mark = len(decls)
                 if t == 'gboolean':
                     # several methods the getter heuristics accept for one boolean property
                     # (get_x, is_x, and plain x for read-only ones): which one wins is decided by
@@ -515,20 +597,71 @@ def gen_namespace(rng, nsname, thorough, deps, want_blocks=True, main=True, gobj
                     if fl & 2:
                         D({'k': 'function', 'name': '%s_%s_set_%s' % (p, sc, un), 'ret': ['void'],
                            'params': [['self', ['ptr', ['named', P + cl]]], [un, ct]]}, rng.choice(apis))
-                if want_blocks and rng.random() < 0.4:
-                    block(['%s%s:%s:' % (P, cl, n), '', 'The %s property.' % n] + (['', 'Since: 1.2'] if rng.random() < 0.3 else []), f_typedefs)
+                accessors = [d for d in decls[mark:] if d['k'] == 'function']
+                getters = [d for d in accessors if '_set_' not in d['name']]
+                setters = [d for d in accessors if '_set_' in d['name']]
+                if t == 'gchararray' and rng.random() < 0.5:
+                    # accessors under unrelated names, tied to the property by annotations only
+                    g = D({'k': 'function', 'name': '%s_%s_dup_label' % (p, sc), 'ret': STRING_OUT,
+                           'params': [['self', ['ptr', ['named', P + cl]]]]}, rng.choice(apis))
+                    if want_blocks:
+                        block(['%s: (get-property %s)' % (g['name'], n), '@self: the object', '', 'Gets it.', '',
+                               'Returns: (transfer full): the %s' % n], g['file'])
+                    if rng.random() < 0.5:
+                        st = D({'k': 'function', 'name': '%s_%s_assign_label' % (p, sc), 'ret': ['void'],
+                                'params': [['self', ['ptr', ['named', P + cl]]], ['label', STRING_IN]]}, rng.choice(apis))
+                        if want_blocks:
+                            block(['%s: (set-property %s)' % (st['name'], n), '@self: the object', '@label: the new value', '',
+                                   'Sets it.'], st['file'])
+                if want_blocks and rng.random() < 0.5:
+                    anns = []
+                    if t == 'GObject' and rng.random() < 0.6:
+                        anns.append('(transfer %s)' % rng.choice(['none', 'full', 'floating']))
+                    if t == 'GObject' and rng.random() < 0.4:
+                        anns.append('(type %s%s)' % (P, cl))
+                    if dv is not None and rng.random() < 0.3:
+                        anns.append('(default-value %s)' % rng.choice(['42', 'NULL', 'TRUE']))
+                    if getters and rng.random() < 0.5:
+                        anns.append('(getter %s)' % rng.choice(getters)['name'][len('%s_%s_' % (p, sc)):])
+                    if setters and rng.random() < 0.5:
+                        anns.append('(setter %s)' % rng.choice(setters)['name'][len('%s_%s_' % (p, sc)):])
+                    if rng.random() < 0.2:
+                        anns.append('(attributes org.example.prop=%s)' % un)
+                    rng.shuffle(anns)
+                    block(['%s%s:%s:%s' % (P, cl, n, (' ' + ' '.join(anns)) if anns else ''), '', 'The %s property.' % n] +
+                          (['', rng.choice(['Since: 1.2', 'Since: 1.4: was private before', 'Stability: Unstable',
+                                            'Deprecated: 2.0: Use something else'])] if rng.random() < 0.4 else []), f_typedefs)
             slist = rng.sample(['changed', 'activated', 'about-to-finish', 'zapped'], rng.randint(0, 3))
             sigs = ''
             for sn in slist:
                 extra = rng.choice(['', '<param type="gint"/>', '<param type="gchararray"/><param type="GObject"/>'])
-                sigs += '<signal name="%s" return="%s" when="%s"%s><param type="%s%s"/>%s</signal>' % (
+                sigs += '<signal name="%s" return="%s" when="%s"%s>%s</signal>' % (
                     sn, rng.choice(['void', 'gboolean']), rng.choice(['first', 'last', 'cleanup']),
-                    rng.choice(['', ' detailed="1"', ' action="1"', ' no-recurse="1"']), P, cl, extra)
-                if want_blocks and rng.random() < 0.4:
-                    tl = ['%s%s::%s:' % (P, cl, sn), '@object: the emitter']
+                    rng.choice(['', ' detailed="1"', ' action="1"', ' no-recurse="1"']), extra)
+                if want_blocks and rng.random() < 0.5:
+                    em = ''
+                    if rng.random() < 0.5:
+                        # (an emitter with as many parameters as the signal, one or more, makes the scanner's
+                        # emitter check index past the method's parameter list - a crash outside the properties
+                        # decided here, so those combinations are not generated)
+                        cands = list(invokers) if 'gint' not in extra else []
+                        if rng.random() < 0.6:
+                            en_ = 'emit_' + sn.replace('-', '_')
+                            if not any(d.get('name') == '%s_%s_%s' % (p, sc, en_) for d in decls):
+                                D({'k': 'function', 'name': '%s_%s_%s' % (p, sc, en_), 'ret': ['void'],
+                                   'params': [['self', ['ptr', ['named', P + cl]]]]}, rng.choice(apis))
+                            cands.append(en_)
+                        if cands:
+                            em = ' (emitter %s)' % rng.choice(cands)
+                    tl = ['%s%s::%s:%s' % (P, cl, sn, em), '@object: the emitter']
                     if 'gint' in extra:
-                        tl.append('@p0: a number')
-                    block(tl + ['', 'Emitted sometimes.'], f_typedefs)
+                        tl.append(rng.choice(['@p0: a number', '@number: (type guint): a number', '@count: a count']))
+                    elif 'gchararray' in extra:
+                        tl.append(rng.choice(['@text: (nullable): some text', '@text: some text']))
+                        if rng.random() < 0.7:      # else: fewer names than parameters (annotations ignored, with a warning)
+                            tl.append(rng.choice(['@source: (type %s%s) (transfer none): where from' % (P, cl), '@source: where from']))
+                    block(tl + ['', 'Emitted sometimes.'] + (['', 'Returns: %sTRUE to stop' % rng.choice(['', '(skip): '])]
+                                                              if rng.random() < 0.3 else []), f_typedefs)
             impl = ''.join('<implements name="%s%s"/>' % (P, i) for i in sorted(ifaces, reverse=True) if rng.random() < 0.7)
             parents = (P + prev + ',GObject') if prev else 'GObject'
             dump[fn] = '<class name="%s%s" get-type="%s" parents="%s"%s>%s%s%s</class>' % (
@@ -543,6 +676,18 @@ def gen_namespace(rng, nsname, thorough, deps, want_blocks=True, main=True, gobj
                 D({'k': 'function', 'name': qfn, 'ret': ['named', 'GQuark'], 'params': []}, rng.choice(apis))
                 quarks[qfn] = '<error-quark function="%s" domain="%s-%s-error-quark"/>' % (qfn, p, sc.replace('_', '-'))
             prev = cl
+        # error domains that belong to no class: the quark function stays a namespace function and is
+        # paired with its enumeration by name (registered enumerations first, then any enumeration)
+        for en in rng.sample(['Parse', 'Codec', 'Net'], rng.choice([0, 0, 1, 2])):
+            base = '%s_%s_ERROR' % (p.upper(), en.upper())
+            ename = P + en + 'Error'
+            D({'k': 'typedef_enum', 'name': ename, 'members': [[base + '_FAILED', 0], [base + '_AGAIN', 1], [base + '_DENIED', 2]],
+               'flags': False}, f_types, 4)
+            qfn = '%s_%s_error_quark' % (p, en.lower())
+            D({'k': 'function', 'name': qfn, 'ret': ['named', 'GQuark'], 'params': []}, rng.choice(apis))
+            quarks[qfn] = '<error-quark function="%s" domain="%s-%s-error"/>' % (qfn, p, en.lower())
+            if rng.random() < 0.5:
+                registered_errors.append(ename)
         # async / finish / sync triples on the first class (needs the Gio stand-in)
         if classes and rng.random() < 0.6:
             cl = classes[0]
@@ -550,18 +695,59 @@ def gen_namespace(rng, nsname, thorough, deps, want_blocks=True, main=True, gobj
             SELF = ['self', ['ptr', ['named', P + cl]]]
             for verb in rng.sample(['load', 'save', 'connect'], rng.randint(1, 2)):
                 parts = rng.sample(['async', 'finish', 'sync'], rng.randint(2, 3))
+                # naming conventions the pairing heuristics know: x_async/x_finish/x and x/x_finish/x_sync
+                suffixed = rng.random() < 0.6
+                aname = verb + ('_async' if suffixed else '')
+                sname = verb if (suffixed and rng.random() < 0.7) else verb + '_sync'
+                explicit = want_blocks and rng.random() < 0.3
+                if explicit:
+                    # names outside the conventions, tied together by annotations only
+                    aname, fname, sname = 'begin_' + verb, 'end_' + verb, verb + '_now'
+                else:
+                    fname = verb + '_finish'
                 if 'async' in parts:
-                    D({'k': 'function', 'name': '%s_%s_%s_async' % (p, sc, verb), 'ret': ['void'],
-                       'params': [SELF, ['cancellable', ['ptr', ['named', 'GCancellable']]],
-                                  ['callback', ['named', 'GAsyncReadyCallback']], ['user_data', GPOINTER]]}, rng.choice(apis))
+                    fa = D({'k': 'function', 'name': '%s_%s_%s' % (p, sc, aname), 'ret': ['void'],
+                            'params': [SELF, ['cancellable', ['ptr', ['named', 'GCancellable']]],
+                                       ['callback', ['named', 'GAsyncReadyCallback']], ['user_data', GPOINTER]]}, rng.choice(apis))
+                    if explicit:
+                        anns = []
+                        if 'finish' in parts:
+                            anns.append('(finish-func %s)' % fname)
+                        if 'sync' in parts and rng.random() < 0.7:
+                            anns.append('(sync-func %s)' % sname)
+                        block(['%s: %s' % (fa['name'], ' '.join(anns)), '@self: the object', '@cancellable: (nullable): a cancellable',
+                               '@callback: (scope async): the callback', '@user_data: data for @callback', '', 'Starts it.'], fa['file'])
                 if 'finish' in parts:
-                    D({'k': 'function', 'name': '%s_%s_%s_finish' % (p, sc, verb), 'ret': ['named', 'gboolean'],
+                    D({'k': 'function', 'name': '%s_%s_%s' % (p, sc, fname), 'ret': ['named', 'gboolean'],
                        'params': [SELF, ['result', ['ptr', ['named', 'GAsyncResult']]],
                                   ['error', ['ptr', ['ptr', ['named', 'GError']]]]]}, rng.choice(apis))
                 if 'sync' in parts:
-                    D({'k': 'function', 'name': '%s_%s_%s%s' % (p, sc, verb, rng.choice(['', '_sync'])), 'ret': ['named', 'gboolean'],
-                       'params': [SELF, ['cancellable', ['ptr', ['named', 'GCancellable']]],
-                                  ['error', ['ptr', ['ptr', ['named', 'GError']]]]]}, rng.choice(apis))
+                    out = [['count', ['ptr', ['basic', 'int']]]] if rng.random() < 0.3 else []
+                    fs = D({'k': 'function', 'name': '%s_%s_%s' % (p, sc, sname), 'ret': ['named', rng.choice(['gboolean', 'gboolean', 'gint'])],
+                            'params': [SELF, ['cancellable', ['ptr', ['named', 'GCancellable']]]] + out +
+                                      [['error', ['ptr', ['ptr', ['named', 'GError']]]]]}, rng.choice(apis))
+                    if explicit and 'async' in parts and rng.random() < 0.7:
+                        block(['%s: (async-func %s)' % (fs['name'], aname), '@self: the object', '@cancellable: (nullable): a cancellable'] +
+                              (['@count: (out): how many'] if out else []) + ['', 'Does it now.', '', 'Returns: whether it worked'], fs['file'])
+        # an instantiatable fundamental type with its own reference counting and GValue functions
+        if rng.random() < 0.3:
+            fn = get_type_fn('mini')
+            D({'k': 'typedef_struct_fwd', 'name': P + 'Mini', 'tag': '_' + P + 'Mini'}, f_typedefs)
+            D({'k': 'struct_def', 'tag': '_' + P + 'Mini', 'members': [
+                {'name': 'instance', 'type': ['named', 'GTypeInstance']},
+                {'name': 'refcount', 'type': ['basic', 'int']}]}, f_structs, 3)
+            MINI = ['ptr', ['named', P + 'Mini']]
+            for mname, ret, params in rng.sample([('ref', MINI, [['self', MINI]]), ('unref', ['void'], [['self', MINI]]),
+                                                  ('value_set', ['void'], [['value', ['ptr', ['named', 'GValue']]], ['self', MINI]]),
+                                                  ('value_get', MINI, [['value', ['ptr', ['const', ['named', 'GValue']]]]]),
+                                                  ('new', MINI, [])], rng.randint(2, 5)):
+                D({'k': 'function', 'name': '%s_mini_%s' % (p, mname), 'ret': ret, 'params': params}, rng.choice(apis))
+            dump[fn] = '<fundamental name="%sMini" get-type="%s" instantiatable="1"%s/>' % (
+                P, fn, rng.choice(['', ' abstract="1"', ' final="1"']))
+            if want_blocks and rng.random() < 0.7:
+                anns = rng.sample(['(ref-func %s_mini_ref)' % p, '(unref-func %s_mini_unref)' % p,
+                                   '(set-value-func %s_mini_value_set)' % p, '(get-value-func %s_mini_value_get)' % p], rng.randint(1, 4))
+                block(['%sMini: %s' % (P, ' '.join(anns)), '', 'A small reference-counted thing.'], f_typedefs)
         # a boxed type and a pointer type without a structure in the scanned headers
         if rng.random() < 0.4:
             fn = get_type_fn('hidden')
@@ -580,17 +766,36 @@ def gen_namespace(rng, nsname, thorough, deps, want_blocks=True, main=True, gobj
             if d and not d[0].get('union') and rng.random() < 0.6:
                 fn = get_type_fn(snake(r))
                 dump[fn] = '<boxed name="%s%s" get-type="%s"/>' % (P, r, fn)
-        for d in [x for x in decls if x['k'] == 'typedef_enum' and not x['name'].endswith('Error')]:
-            if rng.random() < 0.6:
+        for d in [x for x in decls if x['k'] == 'typedef_enum' and (not x['name'].endswith('Error') or x['name'] in registered_errors)]:
+            if rng.random() < 0.6 or x_is_error(d):
                 fn = get_type_fn(snake(d['name'][len(P):]))
                 mem = ''.join('<member name="%s" nick="%s" value="%d"/>' % (i, i.split('_')[-1].lower(), v) for i, v in d['members'])
                 dump[fn] = '<%s name="%s" get-type="%s">%s</%s>' % ('flags' if d['flags'] else 'enum', d['name'], fn, mem,
                                                                     'flags' if d['flags'] else 'enum')
 
+    dup_blocks = False
+    if main and want_blocks and cfiles and comments and rng.random() < 0.15:
+        # the same identifier documented twice, differently (in a header and again in a .c file): the
+        # block that arrives last wins, so the ORDER of blocks matters here by design - such jobs are
+        # only run in their one given order (scansim.gen_variants), under different hash seeds and
+        # cache histories
+        import re as _re
+        for c in rng.sample(comments, min(len(comments), rng.randint(1, 3))):
+            first = c[0].split('\n')[1]
+            m = _re.match(r' \* ([A-Za-z_][A-Za-z0-9_.:]*):', first)
+            if not m or m.group(1).startswith('SECTION'):
+                continue
+            block(['%s:' % m.group(1), '', 'The same thing, documented once more, differently.', '',
+                   'Since: 9.9', 'Stability: Private'], rng.choice(files))
+            dup_blocks = True
     job = {'ns': nsname, 'version': '1.0', 'id_prefixes': [P], 'sym_prefixes': [p],
            'includes': ['%s-%s' % (d['ns'], d['version']) for d in deps],
            'options': [], 'file_order': files, 'order_before': order_before, 'decls': decls,
-           'comments': comments, 'deps': deps, '_records': records}
+           'comments': comments, 'deps': deps, '_records': records, '_foreign_types': foreign}
+    if crayon:
+        job['includes'] = job['includes'] + ['Crayon-1.0']
+    if dup_blocks:
+        job['fixed_order'] = True
     if gobject:
         job['includes'] = ['Gio-2.0'] + job['includes']
         job['dump'] = dump
@@ -618,7 +823,7 @@ def gen_job(rng, thorough):
     a = b = c = None
     deps = []
     if shape != 'none':
-        a = gen_namespace(rng, 'Dpa', False, [], want_blocks=rng.random() < 0.5, main=False)
+        a = gen_namespace(rng, 'Dpa', False, [], want_blocks=rng.random() < 0.5, main=False, crayon=rng.random() < 0.35)
     if shape == 'one':
         deps = [a]
     elif shape == 'chain':
@@ -657,7 +862,7 @@ def gen_job(rng, thorough):
         c = gen_namespace(rng, 'Dpc', False, [a, b], want_blocks=False, main=False)
         deps = [c] if rng.random() < 0.5 else [c, b, a]
     gobject = rng.random() < 0.55
-    main = gen_namespace(rng, rng.choice(['Vfa', 'Qx', 'Mylib']), thorough, deps, gobject=gobject)
+    main = gen_namespace(rng, rng.choice(['Vfa', 'Qx', 'Mylib']), thorough, deps, gobject=gobject, crayon=rng.random() < 0.12)
     main['shape'] = shape
     main['gobject'] = gobject
     return main
